@@ -52,6 +52,12 @@ impl BitFieldQueue {
     pub fn cut(&mut self, to_cut: &BitField) -> (r: anyhow::Result<()>) { unimplemented!() }
 }
 
+// ---- Deadline::record_proven_sectors: `post_partitions.iter().map(|p| p.index)` (iterator adapters are outside Verus' subset) ---------------------
+pub open spec fn vx_post_index_seq(ps: Seq<PoStPartition>) -> Seq<u64> { Seq::new(ps.len(), |i: int| ps[i].index) }
+/// the body IS the original expression, collected
+#[verifier::external_body]
+pub fn vx_post_indexes(ps: &[PoStPartition]) -> (r: Vec<u64>) ensures r@ == vx_post_index_seq(ps@) { ps.iter().map(|p| p.index).collect() }
+
 // ---- fvm_ipld_bitfield ---------------------------------------------------------------------------------------------------------------------
 impl BitField {
     /// BitField::try_from_bits(iter): the set of the given bits (Err only when a bit is out of the representable range)
@@ -66,8 +72,10 @@ impl BitField {
     { unimplemented!() }
     /// BitField::union(iter of &BitField): the union of all of them
     #[verifier::external_body]
-    pub fn union(v: &Vec<BitField>) -> (r: BitField)
-        ensures forall|b: u64| r@.contains(b) <==> exists|i: int| 0 <= i < v@.len() && (#[trigger] v@[i])@.contains(b),
-    { unimplemented!() }
+    pub fn union(v: &Vec<BitField>) -> (r: BitField) ensures bf_union_is(v@, r@) { unimplemented!() }
+}
+/// `s` is the union of the sets of `v`
+pub open spec fn bf_union_is(v: Seq<BitField>, s: Set<u64>) -> bool {
+    forall|b: u64| s.contains(b) <==> exists|i: int| 0 <= i < v.len() && (#[trigger] v[i])@.contains(b)
 }
 } // verus!
